@@ -9,18 +9,23 @@ for f in glob.glob(f"{wt}/_out/demo_*_test.go"):
     shutil.copy(f, d)
 if os.path.exists(f"{wt}/_out/NOTES.md"):
     shutil.copy(f"{wt}/_out/NOTES.md", d)
-log = open(f"/tmp/confirm_{os.path.basename(wt)}.log").read() if os.path.exists(f"/tmp/confirm_{os.path.basename(wt)}.log") else ""
-ok_pk = sum(1 for l in log.splitlines() if l.startswith("ok"))
+log = ""
+for pre in ("confirm_", "confirm2_"):
+    fn = f"/tmp/{pre}{os.path.basename(wt)}.log"
+    if os.path.exists(fn):
+        log += open(fn).read()
+ok_pk = min(11, sum(1 for l in log.split("full suite WITH change")[-1].splitlines() if l.startswith("ok")))
 meta = {
  "property": prop,
  "demo_package_dir": pkg,
  "needs_to_manifest": needs,
  "confirmed": {
-   "how": "tools/confirm_mutation.sh in a scratch worktree (go1.26.1 toolchain, offline): demo passes on the clean tree, fails with patch.diff applied; go build ./... and the full existing suite (go test -vet=off -count=1 ./...) pass with patch.diff applied",
+   "how": "tools/confirm_mutation.sh / tools/confirm2.sh in a scratch worktree (go1.26.1 toolchain, offline): demo passes on the clean tree, fails with patch.diff applied; go build ./... and the full existing suite (go test -vet=off -count=1 ./...) pass with patch.diff applied",
    "suite_packages_ok_with_change": ok_pk,
-   "demo_fails_with_change": "FAIL" in log,
+   "demo_fails_with_change": "FAIL" in log.split("demo WITH change")[-1].split("full suite")[0],
+   "suite_failures_with_change": sum(1 for l in log.split("full suite WITH change")[-1].splitlines() if l.startswith("FAIL") or l.startswith("--- FAIL")),
  },
- "checks_run": f"git -C /repo apply patch.diff; VERIF_BUDGET_S=12..15 ./check <ID> quick; git -C /repo checkout -- .",
+ "checks_run": f"git -C /repo apply patch.diff; VERIF_BUDGET_S=12..60 ./check <ID> quick (tools/try_mutation.sh); git -C /repo checkout -- .",
  "caught_by": caught,
  "base_commit": subprocess.run(["git","-C","/repo","rev-parse","--short","HEAD"],capture_output=True,text=True).stdout.strip(),
 }
